@@ -947,6 +947,55 @@ func (env *SpecEnv) bip66(x ast.Expr) *Term {
 }
 
 func init() {
+	// elemval(vec, i): val of the object element i of a slice-of-pointers parameter points to
+	specFuncs["elemval"] = func(env *SpecEnv, n *ast.CallExpr) Value {
+		sl := env.sliceOf(env.eval(n.Args[0]), n.Args[0])
+		return env.elemVal(sl, env.term(n.Args[1]), n)
+	}
+	// vsum(vec, k) / vprod(vec, k): sum / product of the first k elements (recursively specified; each
+	// evaluation unfolds one step:  f(0) = unit,  k >= 1 ==> f(k) = f(k-1) op elemval(k-1))
+	for _, nm := range []string{"vsum", "vprod"} {
+		nm := nm
+		specFuncs[nm] = func(env *SpecEnv, n *ast.CallExpr) Value {
+			sl := env.sliceOf(env.eval(n.Args[0]), n.Args[0])
+			k := env.state().sub(env.term(n.Args[1]))
+			if sl.reg == nil {
+				env.fail("%s of nil slice", nm)
+			}
+			pt, ok := underlying(sl.elem).(*types.Pointer)
+			if !ok {
+				env.fail("%s: not a slice of pointers", nm)
+			}
+			so := SFn
+			if namedOf(pt).Obj().Name() == "Element" {
+				so = SFp
+			}
+			unit := int64(0)
+			if nm == "vprod" {
+				unit = 1
+			}
+			f := func(a *Term) *Term {
+				if a.IsConst() && a.Val.Sign() == 0 {
+					return mkRingConst(so, big.NewInt(unit))
+				}
+				return mkApp(fmt.Sprintf("%s$%d", nm, sl.reg.id), so, a)
+			}
+			if k.IsConst() && k.Val.Sign() == 0 {
+				return f(k)
+			}
+			km1 := mkSub(k, mkInt64(1))
+			var step *Term
+			if nm == "vsum" {
+				step = mkAdd(f(km1), env.elemVal(sl, km1, n))
+			} else {
+				step = mkMul(f(km1), env.elemVal(sl, km1, n))
+			}
+			st := env.state()
+			st.assume(mkImplies(mkLe(mkInt64(1), k), mkEq(f(k), step)))
+			st.assume(mkImplies(mkEq(k, mkInt64(0)), mkEq(f(k), mkRingConst(so, big.NewInt(unit)))))
+			return f(k)
+		}
+	}
 	// atom(t): the same value as t, but kept as one opaque symbol (with the defining equation as a
 	// hypothesis) so that polynomial operations on it are not expanded
 	specFuncs["atom"] = func(env *SpecEnv, n *ast.CallExpr) Value {
@@ -1196,4 +1245,19 @@ func (env *SpecEnv) lvalueCells(x ast.Expr) (cells []cellRef, dyn []*SliceVal) {
 	}
 	rec(v)
 	return
+}
+
+func (env *SpecEnv) elemVal(sl *SliceVal, i *Term, n ast.Expr) *Term {
+	st := env.state()
+	if sl.reg == nil || sl.reg.family == nil {
+		env.fail("elemval: not a slice-of-pointers parameter")
+	}
+	idx := st.sub(mkAdd(sl.off, i))
+	fam := env.e.familyElem(st, sl.reg, idx)
+	fv := env.valOf(fam, n).(*Term)
+	if sl.reg.aliasPtr != nil {
+		av := env.valOf(sl.reg.aliasPtr, n).(*Term)
+		return mkIte(mkEq(idx, sl.reg.aliasIdx), av, fv)
+	}
+	return fv
 }
